@@ -443,6 +443,24 @@ def run_model(lines, timeout=1800, shards=1):
     return res
 
 
+def srepr(x, limit=300):
+    """repr() that survives integers beyond the interpreter's int->str digit limit (they are part of the value pools)"""
+    try:
+        return repr(x)[:limit]
+    except ValueError:
+        def f(v):
+            if isinstance(v, bool):
+                return repr(v)
+            if isinstance(v, int):
+                return "int(%s0x%x...)" % ("-" if v < 0 else "", abs(v) >> max(abs(v).bit_length() - 64, 0))
+            if isinstance(v, dict):
+                return "{" + ", ".join("%s: %s" % (f(k), f(w)) for k, w in v.items()) + "}"
+            if isinstance(v, (list, tuple)):
+                return "[" + ", ".join(f(w) for w in v) + "]"
+            return repr(v)
+        return f(x)[:limit]
+
+
 def wf_oracle(frames, shards=1, limit=3000):
     """'1'/'0' per input: the Coq predicate wellformedb (extracted) for inputs up to `limit` bytes, an independent
     Python reading of the same definition beyond (the model's closed-form checksum is quadratic in the length)."""
